@@ -8,6 +8,7 @@ from .. import algebra as A
 from ..algebra import Extractor, Rat, Unsupported
 from ..core import Ctx
 from ..model import AnalysisError, ClassInfo, FuncInfo, Model, dotted, norm, walk_no_nested
+from .common import expand_locals
 
 # slot roles of the array form (layout checked against _build_arrays_* by rule R-LAYOUT)
 SLOT_NAMES = {0: "S", 1: "E", 2: "D", 3: "C"}
@@ -106,7 +107,7 @@ def extract_d(M: Model, c: ClassInfo) -> KernelForm:
         raise Unsupported("d must take two units")
 
     def attr(ex: Extractor, e: ast.Attribute):
-        t = norm(e)
+        t = norm(expand_locals(d.node, e))
         for i, p in enumerate(ps):
             for path, slot in ATTR_SLOTS.items():
                 if t == f"{p}.{path}":
